@@ -248,6 +248,10 @@ func (i *interpreter) unlock(p *value) {
 		panic(targetPanic{iface{t: i.eng.runtimeErrT, v: "sync: unlock of unlocked mutex"}})
 	}
 	m.writer = false
+	// leaving a critical section is a point where another thread may run before this
+	// one goes on (subject to the preemption bound): code that keeps using shared data
+	// after it released the lock is only sound if it can be preempted here
+	i.yield()
 }
 
 func (i *interpreter) rlock(p *value) {
